@@ -366,6 +366,10 @@ class LG:
             self.k += 1
             m = self.k
             doc = f'\n    "doc lambda {p}: ("' if s == "@DEFNAMEDOC" else ""
+            if doc and r.random() < 0.5:
+                # ... or a statement in front of the return that takes part in what the function does (an assert python only drops
+                # under -O, a condition that raises): no lambda says the same
+                doc = r.choice([f"\n    assert {p}.ok{m}, 'lambda {p}: ('", f"\n    assert {p}.n{m} > 0", f"\n    if {p}.bad{m}: raise KeyError({m})", f'\n    "doc"\n    assert {p}.ok{m}'])
             look = f"def sel{i}_a({p}): return {p}.decoy{m}\n" if r.random() < 0.5 else ""
             after = f"def sel{i}_z({p}): return {p}.decoy2{m}\n" if r.random() < 0.5 else ""
             if s == "@DEFNAME":
